@@ -305,14 +305,17 @@ func classify(err error) string {
 			{"xmldsig: invalid signature", "invalid"}, {"missing public key", "nokey"}, {"unsupported reference transform", "unsupported-transform"},
 			{"unsupported reference URI", "unsupported-uri"}, {"unable to locate reference", "noref"}, {"digest mismatch", "digest"},
 			{"expected element type", "xml"}, {"verification error", "badsig"}, {"ECDSA verification failed", "badsig"},
-			{"invalid ECDSA signature", "badsig"}, {"first certificate must match", "certkey"}} {
+			{"invalid ECDSA signature", "badsig"}, {"first certificate must match", "certkey"}, {"no root element", "noroot"},
+			{"no enclosing document", "noparent"}} {
 			if strings.Contains(s, kv[0]) {
 				return "x-" + kv[1]
 			}
 		}
 		return "x-other_" + clean(s[i:])
 	}
-	for _, kv := range [][2]string{{"file missing from zip", "missing"}, {"error parsing rels", "rels"}, {"failed to parse certificate", "badcert"},
+	for _, kv := range [][2]string{{"duplicate zip member", "duplicate"}, {"part is not covered by the signature", "uncovered"},
+		{"cannot be referenced from the signature manifest", "unreferencable"}, {"neither a content type nor an extension", "no-content-type"},
+		{"file missing from zip", "missing"}, {"error parsing rels", "rels"}, {"failed to parse certificate", "badcert"},
 		{"validation failed: file not found", "file-not-found"}, {"validation failed: unsupported digest", "unsupported-digest"},
 		{"validation failed: invalid digest", "invalid-digest"}, {"validation failed: digest mismatch", "digest-mismatch"},
 		{"validation failed:", "manifest-xml"}, {"leaf x509 certificate not found", "noleaf"}, {"timestamp check failed", "ts"},
@@ -562,7 +565,8 @@ func signParts(ps []part, c cfg) (*signed, string) {
 	in, out := scratch("in.vsix"), scratch("out.vsix")
 	defer os.Remove(in)
 	defer os.Remove(out)
-	if err := os.WriteFile(in, buildZip(ps), 0o644); err != nil {
+	zin := buildZip(ps)
+	if err := os.WriteFile(in, zin, 0o644); err != nil {
 		panic(err)
 	}
 	err, site := guarded(func() error { return signFile(in, out, getCert(c.key), hashes[c.hash], c.detach) })
@@ -570,6 +574,11 @@ func signParts(ps []part, c cfg) (*signed, string) {
 		return nil, "panic " + clean(site)
 	}
 	if err != nil {
+		// a refusal must leave the input as it was and write nothing
+		now, _ := os.ReadFile(in)
+		if _, statErr := os.Stat(out); statErr == nil || !bytes.Equal(now, zin) {
+			return nil, "err " + classify(err) + " dirty"
+		}
 		return nil, "err " + classify(err)
 	}
 	z, err := os.ReadFile(out)
@@ -817,6 +826,9 @@ func genPackage(r *hx.Rng, o genOpts) []part {
 	var ps []part
 	used := map[string]bool{}
 	add := func(n string) {
+		if used[n] {
+			return // duplicate member names are added on purpose further down, not by chance
+		}
 		d := genData(r)
 		if strings.HasSuffix(n, "/") {
 			d = nil // archive/zip refuses data for a directory entry
@@ -896,8 +908,8 @@ func genPackage(r *hx.Rng, o genOpts) []part {
 		i := r.Intn(len(ps) + 1)
 		ps = append(ps[:i:i], append([]part{{contentTypesPath, ctXML(defs, ovrs)}}, ps[i:]...)...)
 	}
-	// duplicate member names
-	if o.odd && r.Intn(4) == 0 {
+	// duplicate member names (refused by the signer since the repair of FV4)
+	if o.odd && r.Intn(6) == 0 {
 		i := r.Intn(len(ps))
 		if ps[i].name != contentTypesPath {
 			j := r.Intn(len(ps) + 1)
@@ -992,7 +1004,7 @@ func flip(r *hx.Rng, d []byte) []byte {
 }
 
 // label prefix: "p-" = the edit changes something the signature protects (must be rejected), "g-" = a stated gap (accepted by
-// design of the verifier: listed findings), "n-" = neutral (same verdict as before), "s-" = structural (whatever the model says)
+// the verifier: listed findings; before the repairs "p-add-part" and "p-shadow-before" were among them), "n-" = neutral (same verdict as before), "s-" = structural (whatever the model says)
 var mutations = []mutation{
 	{"n-none", func(r *hx.Rng, ps []part, c cfg, o *signed) []part { return ps }},
 	{"n-reorder", func(r *hx.Rng, ps []part, c cfg, o *signed) []part {
@@ -1055,15 +1067,19 @@ var mutations = []mutation{
 		}
 		return append(ps, part{ps[i].name, append([]byte("shadow"), ps[i].data...)})
 	}},
-	{"g-shadow-before", func(r *hx.Rng, ps []part, c cfg, o *signed) []part {
+	{"p-shadow-before", func(r *hx.Rng, ps []part, c cfg, o *signed) []part {
 		i := pickIdx(r, ps, isPayload)
 		if i < 0 {
 			return nil
 		}
 		return insert(ps, r.Intn(i+1), part{ps[i].name, append([]byte("shadow"), ps[i].data...)})
 	}},
-	{"g-add-part", func(r *hx.Rng, ps []part, c cfg, o *signed) []part {
-		return insert(ps, r.Intn(len(ps)+1), part{pick(r, []string{"evil.dll", "extra/payload.exe", "x.rels", "package/services/digital-signature/extra.bin", "NOEXT"}), r.Bytes(5)})
+	{"p-add-part", func(r *hx.Rng, ps []part, c cfg, o *signed) []part {
+		return insert(ps, r.Intn(len(ps)+1), part{pick(r, []string{"evil.dll", "extra/payload.exe", "NOEXT", "package/services/digital-signaturex/evil.dll", "_rels/evil.bin"}), r.Bytes(5)})
+	}},
+	{"g-add-meta", func(r *hx.Rng, ps []part, c cfg, o *signed) []part {
+		// names the verifier takes for signature metadata (keepFile refuses them) and does not look up
+		return insert(ps, r.Intn(len(ps)+1), part{pick(r, []string{"x.rels", "package/services/digital-signature/extra.bin", "evil.psdor", "dir/_rels/evil.dll.rels"}), r.Bytes(5)})
 	}},
 	{"g-ctypes-changed", func(r *hx.Rng, ps []part, c cfg, o *signed) []part {
 		i := idx(ps, func(p part) bool { return p.name == contentTypesPath })
@@ -1308,6 +1324,28 @@ func craftSig(c cfg, manifests [][]cref, extraObjKids func(obj *etree.Element)) 
 	return b
 }
 
+// envelopedRootPkg: payload plus signature plumbing whose signature part is an enveloped Signature element on its own
+func envelopedRootPkg(c cfg, payload []part) []part {
+	doc := etree.NewDocument()
+	rootEl := doc.CreateElement("doc")
+	rootEl.CreateElement("payload").SetText("x")
+	cert := getCert(c.key)
+	if err := xmldsig.Sign(rootEl, rootEl, hashes[c.hash], cert.Signer(), cert.Chain(), xmldsig.SignOptions{IncludeKeyValue: true, IncludeX509: true}); err != nil {
+		panic(err)
+	}
+	sd := etree.NewDocument()
+	sd.SetRoot(rootEl.SelectElement("Signature").Copy())
+	sb, err := sd.WriteToBytes()
+	if err != nil {
+		panic(err)
+	}
+	sn := c.sigName()
+	return append(clone(payload),
+		part{"_rels/.rels", relsXML([][2]string{{"/" + originPath, sigOriginType}})},
+		part{digSigPath + "/_rels/origin.psdor.rels", relsXML([][2]string{{"/" + sn, sigType}})},
+		part{originPath, nil}, part{sn, sb})
+}
+
 func b64digest(h crypto.Hash, d []byte) string {
 	w := h.New()
 	w.Write(d)
@@ -1324,6 +1362,11 @@ func genCrafted(w *bufio.Writer, r *hx.Rng, n int) {
 		}
 		var ms [][]cref
 		label := ""
+		if i%15 == 14 {
+			// a validly signed *enveloped* Signature stored as the signature part: xmldsig.Verify(root, ".") finds the root itself
+			emitVerify(w, envelopedRootPkg(c, payload), "c-enveloped-root")
+			continue
+		}
 		switch k := i % 14; k {
 		case 0:
 			label = "c-all-good"
@@ -1571,12 +1614,15 @@ func WitnessOps() map[string][]string {
 	if s == nil {
 		panic(bad)
 	}
-	emitVerify(w, append(clone(s.parts), part{"evil.dll", []byte("MZ")}), "g-add-part")
-	emitVerify(w, insert(clone(s.parts), 0, part{"a.txt", []byte("shadow")}), "g-shadow-before")
+	emitVerify(w, append(clone(s.parts), part{"evil.dll", []byte("MZ")}), "p-add-part")
+	emitVerify(w, insert(clone(s.parts), 0, part{"a.txt", []byte("shadow")}), "p-shadow-before")
+	emitVerify(w, append(clone(s.parts), part{"package/services/digital-signature/evil.dll", []byte("MZ")}), "g-add-meta")
 	ch := clone(s.parts)
 	ch[len(ch)-1].data = ctXML([][2]string{{"txt", "application/x-msdownload"}}, nil)
 	emitVerify(w, ch, "g-ctypes-changed")
 	emitVerify(w, clone(s.parts)[:len(s.parts)-1], "g-ctypes-removed")
 	out["C02/vsix-gaps.ops"] = take()
+	// C11: an enveloped Signature as signature part (sigEl.Parent() is nil in xmldsig.Verify), in C11's own op format
+	out["C11/vsix_enveloped_root.ops"] = []string{"C11 ep verify:vsix hex:" + hx.Hex(buildZip(envelopedRootPkg(c, []part{{"extension.vsixmanifest", []byte("<x/>")}}))) + " -"}
 	return out
 }
